@@ -264,10 +264,17 @@ func typeWordEvalRule(p *core.Program, r *core.Report, rule string) {
 		var asserts map[string]bool // part types asserted on the results of the recursive Read calls
 		evalR := func(word int64) []ctor {
 			asserts = map[string]bool{}
-			ev := &eng.ConstEval{Inline: pureTableHelper}
+			// helpers of the reader's own package are part of the reader (a header/body split, a shared member loop,
+			// also as function literals); a recursive Read yields a member, tracked as a symbol
+			ev := &eng.ConstEval{Inline: func(f *ssa.Function) bool {
+				return pureTableHelper(f) || (core.FnPkgPath(topLevel(f)) == core.FnPkgPath(rfn) && f != rfn)
+			}}
 			ev.Override = func(fn *ssa.Function, v ssa.Value, args []eng.CVal) (eng.CVal, bool) {
 				if v == ssa.Value(first) {
 					return eng.TupleV(eng.ConstV(constant.MakeInt64(word)), eng.NilV()), true
+				}
+				if c, ok := v.(*ssa.Call); ok && c.Call.StaticCallee() == rfn {
+					return eng.TupleV(eng.SymV("member"), eng.Top), true
 				}
 				return eng.CVal{}, false
 			}
@@ -275,10 +282,8 @@ func typeWordEvalRule(p *core.Program, r *core.Report, rule string) {
 			var out []ctor
 			eng.WalkReached(top, func(act *eng.CEResult, in ssa.Instruction) {
 				if ta, isTA := in.(*ssa.TypeAssert); isTA && ta.CommaOk {
-					if ex, isE := ta.X.(*ssa.Extract); isE {
-						if rc, isC := ex.Tuple.(*ssa.Call); isC && rc.Call.StaticCallee() == rfn {
-							asserts[eng.TypeShort(ta.AssertedType)] = true
-						}
+					if v := act.Of(ta.X); v.K == eng.CSym && v.S == "member" {
+						asserts[eng.TypeShort(ta.AssertedType)] = true
 					}
 				}
 				c, ok := in.(*ssa.Call)
